@@ -91,6 +91,17 @@ theorem c13_decision (re : List Char → Option Bool) (c : Client) (p : Option P
                       subst hm
                       exact reLoop_true hre
 
+/-- **Patterns fail closed**: a client that has patterns configured is never redirected to when none of
+them answers "match" — in particular when every pattern fails to compile (`re pat = none`, e.g. a pattern
+written for another regexp dialect) — whatever its domains say.  An uncompilable pattern therefore must
+reach the validator as written: a loader that drops it turns "domains and patterns" into "domains only". -/
+theorem c13_patterns_fail_closed (re : List Char → Option Bool) (c : Client) (p : Option Parsed)
+    (hne : c.patterns ≠ []) (h : ∀ pat ∈ c.patterns, re pat ≠ some true) : decide re c p ≠ .accept := by
+  intro hacc
+  obtain ⟨_, _, _, _, _, _, _, hpat⟩ := c13_decision re c p hacc
+  obtain ⟨pat, hm, ht⟩ := hpat hne
+  exact h pat hm ht
+
 /-- **Unconfigured client**: a client with neither domains nor patterns is never redirected to. -/
 theorem c13_unconfigured_client (re : List Char → Option Bool) (c : Client) (p : Option Parsed)
     (h1 : c.domains = []) (h2 : c.patterns = []) : decide re c p = .reject := by
@@ -305,6 +316,12 @@ theorem c13_sites :
       redirectFmt := "%s?code=%s&state=%s".toList,
       redirectFirstArg := "requestRedirectURLString".toList,
       orderOK := true } := by
+  decide
+
+/-- **Configuration reaches the validator as written**: no statement of cmd/keymasterd assigns to a
+client's `AllowedRedirectURLRE` / `AllowedRedirectDomains` or to the client table — the YAML decoder is
+the only writer, so the lists `decide` is applied to are the operator's. -/
+theorem c13_config_as_written : clientConfigWrites = [] := by
   decide
 
 end KM.Redirect
